@@ -437,7 +437,7 @@ func c20d2scenarios(ctx *Ctx) {
 			s.v(&c20Op{name: "tupleType", a: tys})
 		}
 		s.v(&c20Op{name: "xunify", a: tys})
-		s.v(&c20Op{name: "xunify", a: tys})
+		s.r.step(&c20Op{name: "xunify", a: tys}) // again: applies only if the first call left the types alone
 		s.end()
 	}
 	// ---- UnmarkDeepWithPaths hands out copies (C20.read_entry_points_return_fresh / unmark_seeded_counterexample)
